@@ -18,6 +18,7 @@
   (checked by the harness stream `ttl`: an index created with 0 seconds expires every past date).
 -/
 import Lungo.Proofs.ExpireLaws
+import Lungo.Proofs.IndexColl
 namespace Lungo.C19
 open Lungo
 
@@ -231,12 +232,91 @@ theorem ttl_single_field (config : IndexConfig) (i : Index) (h : newIndex config
     · cases h
     · split at h
       · cases h
-      · rename_i hlen
-        simp only [he, decide_true, Bool.true_and, decide_eq_true_eq, Nat.not_lt] at hlen
-        match hk : config.key with
-        | [] => simp [hk] at hne
-        | [kv] => exact ⟨kv, rfl⟩
-        | _ :: _ :: _ => simp [hk] at hlen
+      · split at h
+        · cases h
+        · rename_i hlen
+          simp only [he, decide_true, Bool.true_and, decide_eq_true_eq, Nat.not_lt] at hlen
+          match hk : config.key with
+          | [] => simp [hk] at hne
+          | [kv] => exact ⟨kv, rfl⟩
+          | _ :: _ :: _ => simp [hk] at hlen
+
+/-! ### where `TTLFieldsPlain` comes from
+
+  Since the repo fix "reject index keys on fields that start with a dollar sign" (mirrored in
+  `newIndex`), an index can only be created on plain field names. `TTLFieldsPlain` is therefore
+  established at the only two places where indexes come into existence (`newColl`, `Coll.createIndex`)
+  and no other collection method touches `config`. It is KEPT as a hypothesis of `ExpireReady`
+  because the catalog-wide invariant "every index was made by `newIndex`" is not part of the C07
+  `Coherent` predicate (which speaks about entries only); the three lemmas below are what that
+  invariant's proof needs. -/
+
+theorem columns_paths : ∀ {key : Doc} {cols : List Column}, columns key = .ok cols → cols.map (·.path) = key.map (·.1)
+  | [], cols, h => by simp only [columns, Except.ok.injEq] at h; subst h; rfl
+  | (k, v) :: r, cols, h => by
+    unfold columns at h
+    simp only at h
+    cases v <;> simp only at h
+    all_goals repeat' split at h
+    all_goals first
+      | (simp only [Except.ok.injEq] at h; subst h
+         simp only [List.map_cons, List.cons.injEq, true_and]
+         exact columns_paths (by assumption))
+      | cases h
+
+/-- `newIndex` succeeds only on keys all of whose field names are plain (no `$` prefix) -/
+theorem newIndex_key_plain (config : IndexConfig) (i : Index) (h : newIndex config = .ok i) :
+    (∀ kv ∈ i.config.key, isOpKey kv.1 = false) ∧ isOpKey (ttlField i) = false := by
+  have hall : ∀ kv ∈ i.config.key, isOpKey kv.1 = false := by
+    unfold newIndex at h
+    split at h
+    · cases h
+    · split at h
+      · cases h
+      · rename_i cols hc
+        split at h
+        · cases h
+        · rename_i hany
+          split at h
+          · cases h
+          · simp only [Except.ok.injEq] at h; subst h
+            intro kv hkv
+            have hp := columns_paths hc
+            have : kv.1 ∈ cols.map (·.path) := by rw [hp]; exact List.mem_map_of_mem hkv
+            simp only [List.mem_map] at this
+            obtain ⟨col, hcol, hpath⟩ := this
+            simp only [Bool.not_eq_true, List.any_eq_false] at hany
+            rw [← hpath]
+            simpa using hany col hcol
+  refine ⟨hall, ?_⟩
+  unfold ttlField
+  split
+  · rename_i k v r hk
+    exact hall (k, v) (by rw [hk]; exact List.mem_cons_self ..)
+  · simp [isOpKey]
+
+theorem newColl_ttl_plain (b : Bool) : TTLFieldsPlain (newColl b) := by
+  intro ni hni
+  cases b <;> simp [ttlIndexes, newColl, idIndexConfig] at hni
+
+/-- creating an index keeps the TTL fields plain: the new index went through `newIndex` -/
+theorem createIndex_keeps_ttl_plain (sch : SchemaEval) (c c' : Coll) (name name' : String) (config : IndexConfig)
+    (hp : TTLFieldsPlain c) (h : c.createIndex sch name config = .ok (c', name')) : TTLFieldsPlain c' := by
+  obtain ⟨_, hcase⟩ := createIndex_spec h
+  rcases hcase with ⟨rfl, _⟩ | ⟨index, index', hnew, hbuild, rfl, _, _⟩
+  · exact hp
+  · intro ni hni
+    simp only [ttlIndexes, List.filter_append, List.mem_append, List.mem_filter] at hni
+    rcases hni with hni | hni
+    · exact hp ni (by simpa [ttlIndexes, List.mem_filter] using hni)
+    · simp only [List.mem_cons, List.not_mem_nil, or_false] at hni
+      obtain ⟨rfl, _⟩ := hni
+      have hcfg := (build_shape hbuild).1
+      have := (newIndex_key_plain config index hnew).2
+      unfold ttlField at this ⊢
+      simp only
+      rw [hcfg]
+      exact this
 
 /-! ### non-vacuity (evaluated tests)
 
@@ -276,5 +356,8 @@ private def idsOf (t : Txn) : List V := ((t.catalog.get? hC).map fun c => c.docs
 -- compound TTL keys are rejected
 #guard (newIndex { key := [("a", .i32 1), ("b", .i32 1)], expiry := 5 }) matches .error _
 #guard (newIndex { key := [("a", .i32 1)], expiry := 5 }) matches .ok _
+-- `$`-prefixed index fields are rejected (with or without expiry)
+#guard (newIndex { key := [("$x", .i32 1)], expiry := 5 }) matches .error _
+#guard (newIndex { key := [("a", .i32 1), ("$x", .i32 1)] }) matches .error _
 
 end Lungo.C19
